@@ -305,7 +305,7 @@ func crashBody(c *Ctx, s *sim.Sim, at int, tag string) (victimSteps int) {
 		f.k.flight = true
 		f.k.flying[f.v] = true
 	}
-	world.StampTimes(dir, nil)
+	world.StampTimes(dir, s.Created()) // access times follow the creation order
 	cfg2 := cfg
 	if other {
 		cfg2.Storage = map[string]string{"zstd": "uncompressed", "uncompressed": "zstd"}[cfg.Storage]
